@@ -154,12 +154,6 @@ theorem M.bind_apply {α β : Type} (x : M α) (g : α → M β) (s : State) :
       | (.err e, s') => (.err e, s')
       | (.panic, s') => (.panic, s') := rfl
 
-theorem PM.bind_apply {α β : Type} (x : PM α) (g : α → PM β) (s : State) :
-    (x >>= g) s = match x s with
-      | (.ok a, s') => g a s'
-      | (.err e, s') => (.err e, s')
-      | (.panic, s') => (.panic, s') := rfl
-
 theorem safe_bind_M {α β : Type} {x : M α} {g : α → M β} {s : State} {Q : α → State → Prop}
     {R : β → State → Prop} (hx : Safe W x s Q)
     (hg : ∀ a s', W.I s' → Mono W.Den s s' → Q a s' → Safe W (g a) s' R) : Safe W (x >>= g) s R := by
@@ -175,11 +169,50 @@ theorem safe_bind_M {α β : Type} {x : M α} {g : α → M β} {s : State} {Q :
   | err e => exact ⟨by simp, h2, h3, fun a ha => by cases ha⟩
   | panic => exact absurd rfl h1
 
-theorem safe_bind_PM {α β : Type} {x : PM α} {g : α → PM β} {s : State} {Q : α → State → Prop}
-    {R : β → State → Prop} (hx : Safe W x s Q)
-    (hg : ∀ a s', W.I s' → Mono W.Den s s' → Q a s' → Safe W (g a) s' R) : Safe W (x >>= g) s R := by
+theorem safe_pure_M {α : Type} (a : α) (s : State) (hi : W.I s) {Q : α → State → Prop} (hq : Q a s) :
+    Safe W (pure a : M α) s Q :=
+  ⟨by simp [pure], hi, Mono.refl _ _, fun b hb => by cases hb; exact hq⟩
+
+/-- a `Call` whose contract is met -/
+theorem safe_call (c : Call) (s : State) (hi : W.I s) (hp : c.Pre W.Den s) :
+    Safe W c.run s (fun _ _ => True) := by
+  obtain ⟨h1, h2, h3⟩ := W.call c s hi hp
+  exact ⟨h1, h2, h3, fun _ _ => trivial⟩
+
+/-- hints stay valid along `Mono` as long as the anchor they name is not reassigned -/
+theorem hintOK_qname_mono {s s' : State} {n : WName} (h : HintOK W.Den s .qname n)
+    (hm : Mono W.Den s s') : HintOK W.Den s' .qname n := by
+  intro q hq
+  rw [hm.1] at hq
+  exact hm.2 q n (h q hq)
+
+/-! ### the same logic for the answer phase, which runs on the writer plus a ghost operation log
+    (`PS`); assertions speak about the writer component only -/
+
+/-- running `f` from `s`: no panic, the writer invariant again, anchors monotone, `Q` on success -/
+def SafeP {ε α : Type} (f : PS → Out ε α × PS) (s : PS) (Q : α → State → Prop) : Prop :=
+  (f s).1 ≠ .panic ∧ W.I (f s).2.w ∧ Mono W.Den s.w (f s).2.w ∧ ∀ a, (f s).1 = .ok a → Q a (f s).2.w
+
+theorem SafeP.weaken {ε α : Type} {f : PS → Out ε α × PS} {s : PS} {Q Q' : α → State → Prop}
+    (h : SafeP W f s Q) (hq : ∀ a w', W.I w' → Mono W.Den s.w w' → Q a w' → Q' a w') : SafeP W f s Q' :=
+  ⟨h.1, h.2.1, h.2.2.1, fun a ha => hq a _ h.2.1 h.2.2.1 (h.2.2.2 a ha)⟩
+
+theorem safeP_congr {ε α : Type} {f g : PS → Out ε α × PS} {s : PS} {Q : α → State → Prop}
+    (h : f s = g s) (hg : SafeP W g s Q) : SafeP W f s Q := by
+  unfold SafeP at hg ⊢; rw [h]; exact hg
+
+theorem PM.bind_apply {α β : Type} (x : PM α) (g : α → PM β) (s : PS) :
+    (x >>= g) s = match x s with
+      | (.ok a, s') => g a s'
+      | (.err e, s') => (.err e, s')
+      | (.panic, s') => (.panic, s') := rfl
+
+theorem safe_bind_PM {α β : Type} {x : PM α} {g : α → PM β} {s : PS} {Q : α → State → Prop}
+    {R : β → State → Prop} (hx : SafeP W x s Q)
+    (hg : ∀ a s', W.I s'.w → Mono W.Den s.w s'.w → Q a s'.w → SafeP W (g a) s' R) :
+    SafeP W (x >>= g) s R := by
   obtain ⟨h1, h2, h3, h4⟩ := hx
-  unfold Safe
+  unfold SafeP
   rw [PM.bind_apply]
   generalize x s = r at h1 h2 h3 h4
   obtain ⟨o, s'⟩ := r
@@ -190,54 +223,43 @@ theorem safe_bind_PM {α β : Type} {x : PM α} {g : α → PM β} {s : State} {
   | err e => exact ⟨by simp, h2, h3, fun a ha => by cases ha⟩
   | panic => exact absurd rfl h1
 
-theorem safe_pure_M {α : Type} (a : α) (s : State) (hi : W.I s) {Q : α → State → Prop} (hq : Q a s) :
-    Safe W (pure a : M α) s Q :=
-  ⟨by simp [pure], hi, Mono.refl _ _, fun b hb => by cases hb; exact hq⟩
-
-theorem safe_pure_PM {α : Type} (a : α) (s : State) (hi : W.I s) {Q : α → State → Prop} (hq : Q a s) :
-    Safe W (pure a : PM α) s Q :=
+theorem safe_pure_PM {α : Type} (a : α) (s : PS) (hi : W.I s.w) {Q : α → State → Prop} (hq : Q a s.w) :
+    SafeP W (pure a : PM α) s Q :=
   ⟨by simp [pure, PM.pure], hi, Mono.refl _ _, fun b hb => by cases hb; exact hq⟩
 
-theorem safe_fail_PM {α : Type} (e : PErr) (s : State) (hi : W.I s) {Q : α → State → Prop} :
-    Safe W (PM.fail e : PM α) s Q :=
+theorem safe_fail_PM {α : Type} (e : PErr) (s : PS) (hi : W.I s.w) {Q : α → State → Prop} :
+    SafeP W (PM.fail e : PM α) s Q :=
   ⟨by simp [PM.fail], hi, Mono.refl _ _, fun b hb => by cases hb⟩
 
-/-- a `Call` whose contract is met -/
-theorem safe_call (c : Call) (s : State) (hi : W.I s) (hp : c.Pre W.Den s) :
-    Safe W c.run s (fun _ _ => True) := by
-  obtain ⟨h1, h2, h3⟩ := W.call c s hi hp
-  exact ⟨h1, h2, h3, fun _ _ => trivial⟩
-
-/-- `writer_call()?` -/
-theorem safe_liftW {α : Type} {m : M α} {s : State} {Q : α → State → Prop} (h : Safe W m s Q) :
-    Safe W (PM.liftW m) s Q := by
-  obtain ⟨h1, h2, h3, h4⟩ := h
-  unfold Safe
-  dsimp only [PM.liftW]
-  generalize m s = r at h1 h2 h3 h4
-  obtain ⟨o, s'⟩ := r
-  cases o with
-  | ok a => exact ⟨by simp, h2, h3, fun b hb => by cases hb; exact h4 a rfl⟩
-  | err e => exact ⟨by simp, h2, h3, fun b hb => by cases hb⟩
-  | panic => exact absurd rfl h1
-
-theorem safe_executeAllowingTruncation {m : M Unit} {s : State} (h : Safe W m s (fun _ _ => True)) :
-    Safe W (executeAllowingTruncation m) s (fun _ _ => True) := by
+/-- a logged header operation -/
+theorem safe_hdrOp (ev : Ev) {m : M Unit} {s : PS} {Q : Unit → State → Prop} (h : Safe W m s.w Q) :
+    SafeP W (PM.hdrOp ev m) s (fun _ _ => True) := by
   obtain ⟨h1, h2, h3, _⟩ := h
-  unfold Safe
-  dsimp only [executeAllowingTruncation]
-  generalize m s = r at h1 h2 h3
-  obtain ⟨o, s'⟩ := r
+  unfold SafeP
+  dsimp only [PM.hdrOp]
+  generalize m s.w = r at h1 h2 h3
+  obtain ⟨o, w'⟩ := r
   cases o with
   | ok a => exact ⟨by simp, h2, h3, fun _ _ => trivial⟩
-  | err e => cases e <;> exact ⟨by simp, h2, h3, fun _ _ => trivial⟩
+  | err e => exact ⟨by simp, h2, h3, fun _ _ => trivial⟩
   | panic => exact absurd rfl h1
 
-/-- hints stay valid along `Mono` as long as the anchor they name is not reassigned -/
-theorem hintOK_qname_mono {s s' : State} {n : WName} (h : HintOK W.Den s .qname n)
-    (hm : Mono W.Den s s') : HintOK W.Den s' .qname n := by
-  intro q hq
-  rw [hm.1] at hq
-  exact hm.2 q n (h q hq)
+/-- a logged record-adding call: `Some(hv)` when it was made and succeeded, `None` when it was
+    optional and did not fit -/
+theorem safe_addCall (ev : AddEv) {m : M HV} {s : PS} {Q : HV → State → Prop} (h : Safe W m s.w Q) :
+    SafeP W (PM.addCall ev m) s (fun o w' => ∀ hv, o = some hv → Q hv w') := by
+  obtain ⟨h1, h2, h3, h4⟩ := h
+  unfold SafeP
+  dsimp only [PM.addCall]
+  generalize m s.w = r at h1 h2 h3 h4
+  obtain ⟨o, w'⟩ := r
+  cases o with
+  | ok a => exact ⟨by simp, h2, h3, fun b hb hv hhv => by cases hb; cases hhv; exact h4 a rfl⟩
+  | err e =>
+    dsimp only
+    split
+    · exact ⟨by simp, h2, h3, fun b hb hv hhv => by cases hb; cases hhv⟩
+    · exact ⟨by simp, h2, h3, fun b hb => by cases hb⟩
+  | panic => exact absurd rfl h1
 
 end QV.ServerSafety
